@@ -96,14 +96,19 @@ pub fn compute_patch_indices(mesh: &Mesh) -> Vec<Vec<usize>> {
     // queue.  When the working queue is empty, we will have completed one patch.  We will then
     // repeat the process until all faces are accounted for.
 
-    // Compute the edge table
-    let mut edge_table = HashMap::new();
+    // Compute the edge table. The key is the undirected edge, and every face on the edge is kept, so
+    // that two faces which traverse a shared edge in the same direction (inconsistent winding) are
+    // still found to be adjacent.
+    let mut edge_table: HashMap<(u32, u32), Vec<usize>> = HashMap::new();
     let mut remaining_faces = HashSet::new();
 
     for (i, face) in mesh.faces().iter().enumerate() {
-        edge_table.insert((face[0], face[1]), i);
-        edge_table.insert((face[1], face[2]), i);
-        edge_table.insert((face[2], face[0]), i);
+        for k in 0..3 {
+            edge_table
+                .entry(make_sym(&edge_key(k, face)))
+                .or_default()
+                .push(i);
+        }
         remaining_faces.insert(i);
     }
 
@@ -118,33 +123,21 @@ pub fn compute_patch_indices(mesh: &Mesh) -> Vec<Vec<usize>> {
         remaining_faces.remove(&face_index);
 
         // Add the edges of the face to the working queue
-        working_queue.push((mesh.faces()[face_index][0], mesh.faces()[face_index][1]));
-        working_queue.push((mesh.faces()[face_index][1], mesh.faces()[face_index][2]));
-        working_queue.push((mesh.faces()[face_index][2], mesh.faces()[face_index][0]));
+        for k in 0..3 {
+            working_queue.push(edge_key(k, &mesh.faces()[face_index]));
+        }
 
         let mut patch = vec![face_index];
 
-        while let Some((v0, v1)) = working_queue.pop() {
-            let e0 = (v0, v1);
-            let e1 = (v1, v0);
-
-            if let Some(f0) = edge_table.get(&e0) {
-                if remaining_faces.contains(f0) {
-                    patch.push(*f0);
-                    remaining_faces.remove(f0);
-                    working_queue.push((mesh.faces()[*f0][0], mesh.faces()[*f0][1]));
-                    working_queue.push((mesh.faces()[*f0][1], mesh.faces()[*f0][2]));
-                    working_queue.push((mesh.faces()[*f0][2], mesh.faces()[*f0][0]));
-                }
-            }
-
-            if let Some(f1) = edge_table.get(&e1) {
-                if remaining_faces.contains(f1) {
-                    patch.push(*f1);
-                    remaining_faces.remove(f1);
-                    working_queue.push((mesh.faces()[*f1][0], mesh.faces()[*f1][1]));
-                    working_queue.push((mesh.faces()[*f1][1], mesh.faces()[*f1][2]));
-                    working_queue.push((mesh.faces()[*f1][2], mesh.faces()[*f1][0]));
+        while let Some(edge) = working_queue.pop() {
+            if let Some(adjacent) = edge_table.get(&make_sym(&edge)) {
+                for f in adjacent {
+                    if remaining_faces.remove(f) {
+                        patch.push(*f);
+                        for k in 0..3 {
+                            working_queue.push(edge_key(k, &mesh.faces()[*f]));
+                        }
+                    }
                 }
             }
         }
